@@ -157,13 +157,14 @@ K_Stale(scn) == \E a \in OptNodes(scn) : scn.g[a].ds /\ \E j \in NamedKids(scn, 
                    Owner(scn, scn.g[a].ent[j].to) # <<a, j>>
 AnyPatch(scn) == \E k \in 1..Len(scn.loads) : scn.loads[k].patch # <<>>
 \* a dict patch two levels down (for the child of a child)
-\* an opt-in class whose __getnewargs_ex__ returns keyword arguments only
+\* an opt-in class whose __getnewargs_ex__ returns keyword arguments only (signature field; the defect it named is
+\* fixed in repo commit 35e075b and no invariant is weakened by it any more)
 K_KwOnly(scn) == \E c \in OptNodes(scn) : scn.g[c].fs = "xo"
 K_DeepPatch(scn) == \E k \in 1..Len(scn.loads) : \E p \in Rng(scn.loads[k].patch) : Len(p) >= 3
 Known_C14(scn) == K_NoSetstate(scn) \/ K_Siblings(scn)
 Known_C15(scn) == K_NoSetstate(scn) \/ K_Siblings(scn) \/ (AnyPatch(scn) /\ (K_Free(scn) \/ K_Stale(scn)))
 \* remote=False goes through the same restore machinery for classes already registered as opt-in
-Known_C13(scn) == scn.t = "graph" /\ scn.op = "rp" /\ ~scn.remote /\ (scn.marker \/ scn.seen) /\ (Known_C14(scn) \/ K_KwOnly(scn))
+Known_C13(scn) == scn.t = "graph" /\ scn.op = "rp" /\ ~scn.remote /\ (scn.marker \/ scn.seen) /\ Known_C14(scn)
 
 (* ===================================== C13 ===================================== *)
 \* graphs / classes / values that do not opt in: the remote_pickle round trip is the pickle round trip
